@@ -23,6 +23,8 @@ RtWhys(e) ==
       long == \E i \in DOMAIN ts : Len(ts[i].v) > Limit
   IN
   <<IF enc.kind = "panic" THEN "P:C11:MakeIndices-panicked" ELSE "ok",
+    \* the tokens were built through Tokenize with a full index (one length and type per token): they must be what was asked for
+    IF Norm(e.want) # ts THEN "P:C11:tokens-built-from-a-full-index-are-not-the-tokens-the-index-describes" ELSE "ok",
     IF Encodable(ts) /\ enc.kind # "ok" THEN "P:C11:no-index-for-tokens-of-1-to-255-characters" ELSE "ok",
     IF Encodable(ts) /\ enc.kind = "ok" /\ ~(dec.kind = "ok" /\ Norm(dec.toks) = ts)
       THEN "P:C11:Tokenize(String(),MakeIndices())-does-not-reconstruct-the-tokens" ELSE "ok",
